@@ -169,6 +169,11 @@ def run(res):
     # first run (patches would show energy before the active source can reach them)
     for r in fw.run_parallel(C19.rerun_case, [dict(seed=res.seed, idx=i) for i in range(4 if quick else 40)]):
         res.absorb(r)
+    # Kang engine, every leg (incl. the patch->receiver leg with the simulation's own speed of sound
+    # and sampling rate): the C19 scene cases compare all orders and the receiver response with the
+    # model and with an independent recomputation of the bins
+    for r in fw.run_parallel(C19.scene_case, [dict(seed=res.seed + 3, idx=i, quick=True) for i in range(24 if quick else 240)]):
+        res.absorb(r)
     import props.C01 as C01
     for r in fw.run_parallel(C01.kernel_case, [dict(seed=res.seed + 1, idx=i) for i in range(30 if quick else 400)]):
         res.absorb(r)
